@@ -314,6 +314,10 @@ func (s *Session) applyChange(c Change) bool {
 		e.applyOwn(c.ID, c.Val)
 		s.mu.Unlock()
 	}
+	// a SETTINGS change may have opened windows: whatever the credit now covers must arrive
+	if s.Prop == "C09" && !e.awaitNoStrand("settings-change") {
+		return false
+	}
 	return true
 }
 
